@@ -60,6 +60,19 @@ fn family(thorough: bool) -> Vec<u64> {
             v.push(m);
         }
     }
+    // every union of ranks and every union of files (dense, structured sets of every size 8k)
+    for m in 0..256u64 {
+        let mut ranks = 0u64;
+        let mut files = 0u64;
+        for i in 0..8 {
+            if m >> i & 1 == 1 {
+                ranks |= 0xFFu64 << (8 * i);
+                files |= 0x0101010101010101u64 << i;
+            }
+        }
+        v.push(ranks);
+        v.push(files);
+    }
     for f in File::ALL {
         v.push(f.bitboard().0);
         v.push(f.adjacent().0);
@@ -196,6 +209,49 @@ pub fn check_unary(a: u64, sink: &Sink, t: &mut Tally) {
             }
             if got != members {
                 p.push((name, format!("iteration yields {:?}, members are {:?}", got, members)));
+            }
+        }
+        // the provided Iterator consumers agree with next() from every partially consumed state
+        for k in 0..=members.len() {
+            if k > 3 && k + 2 < members.len() {
+                continue;
+            }
+            let fresh = || {
+                let mut f = ba.iter();
+                for _ in 0..k {
+                    f.next();
+                }
+                f
+            };
+            let rest = &members[k..];
+            if fresh().count() != rest.len() {
+                p.push(("iteration:count", format!("after {} next(): count() = {}, {} remain", k, fresh().count(), rest.len())));
+            }
+            if fresh().last().map(sq_of) != rest.last().copied() {
+                p.push(("iteration:last", format!("after {} next(): last() disagrees", k)));
+            }
+            let mut folded = Vec::with_capacity(rest.len());
+            fresh().for_each(|s| folded.push(sq_of(s)));
+            if folded != rest {
+                p.push(("iteration:for_each", format!("after {} next(): for_each delivers {:?}", k, folded)));
+            }
+            for n in [0usize, 1, 2, rest.len().saturating_sub(1), rest.len(), rest.len() + 1, 63, 64, 65, u32::MAX as usize, 1 << 32, (1usize << 32) + 1, (1usize << 32) + 2, usize::MAX] {
+                let mut f = fresh();
+                let got = f.nth(n).map(sq_of);
+                let want = rest.get(n).copied();
+                let left_want = rest.len().saturating_sub(n.saturating_add(1));
+                if got != want || f.len() != left_want {
+                    p.push(("iteration:nth", format!("after {} next(): nth({}) = {:?} leaving {}, expected {:?} leaving {}", k, n, got, f.len(), want, left_want)));
+                    break;
+                }
+            }
+            for st in [1usize, 2, 7, (1usize << 32) + 1] {
+                let got: Vec<u8> = fresh().step_by(st).map(sq_of).collect();
+                let want: Vec<u8> = rest.iter().copied().step_by(st).collect();
+                if got != want {
+                    p.push(("iteration:step_by", format!("after {} next(): step_by({}) yields {:?}", k, st, got)));
+                    break;
+                }
             }
         }
         // collecting squares builds their set (ascending, descending and with duplicates)
